@@ -48,6 +48,7 @@ pub const KINDS: &[&str] = &[
     "fix_pair",        // 41 (systematic: two adjacent fixed modules flipped)
     "cw_phantom",      // 42 (errors whose first L syndromes equal those of a smaller, different error pattern)
     "cw_syndrome",     // 43 (a crafted syndrome vector realised in the EC part: LFSR-consistent with discrepancies)
+    "cw_coset",        // 44 (errors on complete cosets of a multiplicative subgroup: binomial / sparse locators)
 ];
 
 pub fn kind_id(name: &str) -> u8 {
